@@ -51,7 +51,7 @@ def run(tier, seed, work, replay):
     for f in _g.glob(rlog + ".*"):
         for rep in open(f).read().split("=================="):
             if "DATA RACE" in rep:
-                frames = _r.findall(r"/repo/cmd/keymasterd/([A-Za-z0-9_]+\.go):(\d+)", rep)
+                frames = _r.findall(_r.escape(E.REPO) + r"/cmd/keymasterd/([A-Za-z0-9_]+\.go):(\d+)", rep)
                 frames = [x for x in frames if not x[0].startswith("zz_verif")]
                 if frames:
                     races.append(sorted(set(frames))[:6])
